@@ -11,6 +11,7 @@
 package vnet
 
 import (
+	"bytes"
 	"container/heap"
 	"fmt"
 	"hash/fnv"
@@ -183,6 +184,7 @@ func New(cfg Config) *Sim {
 	curMu.Lock()
 	cur = s
 	curMu.Unlock()
+	resetSignals()
 	return s
 }
 
@@ -223,9 +225,44 @@ func (s *Sim) logG(g *G, e Ev) {
 func (s *Sim) Hash() uint64 {
 	h := fnv.New64a()
 	for _, e := range s.Trace {
-		fmt.Fprintf(h, "%d|%d|%s|%s|%d|%d|%d|%s|%s|%d|%x|%s\n", e.Seq, e.T, e.Kind, e.G, e.Task, e.Step, e.Sock, e.Src, e.Dst, e.N, e.Data, e.Err)
+		data := e.Data
+		if e.Kind == "point" {
+			data = noErrText(e.Note, data)
+		}
+		fmt.Fprintf(h, "%d|%d|%s|%s|%d|%d|%d|%s|%s|%d|%x|%s\n", e.Seq, e.T, e.Kind, e.G, e.Task, e.Step, e.Sock, e.Src, e.Dst, e.N, data, e.Err)
 	}
 	return h.Sum64()
+}
+
+// noErrText: the wording of an error the library returns is not part of what must repeat from run to run (an
+// implementation that ranges over a map to validate its arguments may name a different culprit each time); that
+// there was an error is. The harness reports results as JSON with the message under "err".
+func noErrText(note string, data []byte) []byte {
+	if note == "listen-end" {
+		if len(data) > 2 { // a non-empty JSON string
+			return []byte(`"E"`)
+		}
+		return data
+	}
+	key := []byte(`"err":"`)
+	i := bytes.Index(data, key)
+	if i < 0 {
+		return data
+	}
+	j := i + len(key)
+	k := j
+	for k < len(data) && data[k] != '"' {
+		if data[k] == '\\' {
+			k++
+		}
+		k++
+	}
+	if k >= len(data) || k == j {
+		return data
+	}
+	out := append([]byte{}, data[:j]...)
+	out = append(out, 'E')
+	return append(out, data[k:]...)
 }
 
 // choice among n alternatives (n >= 1).
